@@ -149,11 +149,18 @@ def mutate_attr(
     return obj
 
 
-def invalidate_attrs(obj: Any, attr: str, invalidation_map: Dict[str, Set[str]] = None):
+def invalidate_attrs(
+    obj: Any,
+    attr: str,
+    invalidation_map: Dict[str, Set[str]] = None,
+    _visited: Optional[Set[str]] = None,
+):
     if invalidation_map is None:
         invalidation_map = obj.__spec_class__.invalidation_map
     if not invalidation_map:
         return
+    if _visited is None:
+        _visited = {attr}
 
     # Handle invalidation
     for invalidatee in invalidation_map.get(attr, set()) | invalidation_map.get(
@@ -164,7 +171,11 @@ def invalidate_attrs(obj: Any, attr: str, invalidation_map: Dict[str, Set[str]] 
         try:
             delattr(obj, invalidatee)
         except AttributeError:
-            pass
+            # Nothing to reset here (e.g. an uncached or not yet evaluated
+            # property), but dependants of `invalidatee` may still be stale.
+            if invalidatee not in _visited:
+                _visited.add(invalidatee)
+                invalidate_attrs(obj, invalidatee, invalidation_map, _visited)
 
 
 def mutate_value(
